@@ -199,6 +199,21 @@ def gen_history(index: int, vseed: int, pool: dict, tier: str) -> dict:
     p_ref = rng.choice([0.0, 0.15, 0.35])
     p_collide = rng.choice([0.1, 0.3, 0.6])
     warm = rng.random() < 0.15
+    if rng.random() < (0.004 if tier == "quick" else 0.01) and len(pool["bank_keys"].get("many", [])) > 600:
+        # fill history: one lookup, then N other distinct lookups (N around a power of two), then the first again -
+        # a bounded memo / ring a change may have added wraps around exactly here
+        many = pool["bank_keys"]["many"]
+        n_fill = (1 << rng.choice([5, 6, 7, 8, 9])) + rng.choice([-1, 0, 1])
+        first = [["bic_from_bank_code", *many[0]], ["bic_candidates", *many[1]], ["iban_props", pool["lookup_ibans"][0]]]
+        body = [[rng.choice(["bic_from_bank_code", "bic_candidates"]), *many[2 + i]] for i in range(min(n_fill, len(many) - 3))]
+        hist = first + body + [json.loads(json.dumps(op)) for op in first]
+        return {
+            "property": PROP, "engine": core.ENGINE_VERSION, "verif_seed": vseed, "run_index": index,
+            "run_seed": str(seed), "pythonhashseed": core.HASHSEED,
+            "config": {"warm": False, "mean_len": len(hist), "p_abort": 0.0, "p_ref": 0.0, "p_collide": 0.0,
+                       "burst": None, "tail_from": len(hist), "deep": False, "fill": n_fill},
+            "history": hist, "targets": ["bank_index"] * len(hist), "faults": [],
+        }
     history: list = []
     targets: list = []
     faults: list = []
